@@ -135,3 +135,70 @@ def _replay(c):
     if same and ha != hb: return True, f'equal arrays hash differently depending on memory layout: {A.tolist()} with strides {A.strides} vs strides {B.strides}'
     if not same and ha == hb: return True, f'different arrays share a hash: {A.tolist()} (strides {A.strides}) and {B.tolist()} (strides {B.strides})'
     return False, 'agree'
+
+# ---------------------------------------------------------------- seekable streams: the hash must cover the WHOLE content
+
+def stream_obligations():
+    '''the real nutils_hash branch for seekable binary streams on a stream whose length is a z3 integer (0 .. 4 chunks + 1): read(n) hands out abstract segments
+    [start, end) of the content; the recorded updates must tile [0, length) exactly and the position must be restored.  builtin len is shadowed in nutils.types so
+    that code measuring a chunk gets the symbolic length.'''
+    import io
+    from symx.sym import SInt, lift
+    C = 0x20000
+    class Seg:
+        def __init__(s, a, b): s.a, s.b = a, b
+        def __bool__(s): return bool(SBool(s.b > s.a))
+        def __len__(s): return SInt(s.b - s.a)
+    class SymStream(io.BufferedIOBase):
+        def __init__(s): s.L = z3.Int('stream_length'); s.cur = z3.IntVal(7); s.seeks = []
+        def seekable(s): return True
+        def tell(s): return 7
+        def seek(s, pos, whence=0): s.cur = z3.IntVal(pos); s.seeks.append(pos); return pos
+        def read(s, n=-1):
+            if n is None or n < 0: k = s.L - s.cur
+            else: k = z3.If(s.L - s.cur < n, s.L - s.cur, z3.IntVal(n))
+            seg = Seg(s.cur, s.cur + k); s.cur = s.cur + k
+            return seg
+    saved = ntypes.hashlib, getattr(ntypes, 'len', None)
+    ntypes.hashlib = _Hashlib; ntypes.len = lambda x: x.__len__() if isinstance(x, Seg) else len(x)
+    out = dict(label='nutils_hash of a seekable binary stream of symbolic length', paths=0, unsat=0, unknown=0, sat=[], errors=[], exhaustive=True)
+    try:
+        def run():
+            st = SymStream()
+            parts = ntypes.nutils_hash(st).parts
+            return parts, st
+        assume = [z3.Int('stream_length') >= 0, z3.Int('stream_length') <= 4 * C + 1]
+        paths, complete = explore(run, assumptions=assume, max_paths=32, timeout_ms=10000)
+        out['paths'] = len(paths); out['exhaustive'] = bool(complete)
+        for P in paths:
+            if P.tag != 'ok':
+                out['errors'].append(f'{P.tag}: {str(P.value)[:160]}'); continue
+            parts, st = P.value
+            segs = [p for p in parts if isinstance(p, Seg)]
+            conds = [z3.BoolVal(bool(st.seeks) and st.seeks[-1] == 7)]
+            pos = z3.IntVal(0)
+            for sg in segs: conds.append(sg.a == pos); pos = sg.b
+            conds.append(pos == st.L)
+            stt, m = solve.holds(z3.And(*conds), pc=list(P.pc) + assume, timeout_ms=20000)
+            if stt == 'unsat': out['unsat'] += 1
+            elif stt == 'unknown': out['unknown'] += 1
+            else: out['sat'].append(dict(kind='stream', length=m.eval(st.L, model_completion=True).as_long()))
+    finally:
+        ntypes.hashlib = saved[0]
+        if saved[1] is None: del ntypes.len
+        else: ntypes.len = saved[1]
+    return out
+
+def replay_stream(c):
+    '''two real files of the reported length that differ in their last byte must hash differently'''
+    import io, hashlib
+    saved = ntypes.numpy, ntypes.hashlib; ntypes.numpy, ntypes.hashlib = numpy, hashlib
+    try:
+        n = int(c['length'])
+        if n == 0: return False, 'empty stream'
+        a = io.BytesIO(b'x' * n); b = io.BytesIO(b'x' * (n - 1) + b'y')
+        ha, hb = ntypes.nutils_hash(a), ntypes.nutils_hash(b)
+    finally:
+        ntypes.numpy, ntypes.hashlib = saved
+    if ha == hb: return True, f'two streams of {n} bytes that differ in their last byte share nutils_hash {ha.hex()}'
+    return False, 'hashes differ'
